@@ -1,29 +1,15 @@
-import IOptProofs.GklsClass
+import IOptProofs.GklsCert4a
+import IOptProofs.GklsCert4b
 import Mathlib.Tactic.IntervalCases
 /-!
-# Kernel-decided certificates of the 100 regenerated GKLS data sets of dimension 4
-
-`Gkls.Cert 4 k` = well-formedness `WF` + class clauses `ClassOK` + identity (`dim = 4`, `number = k`).
-One lemma per block of ten function numbers (`decide +kernel`: exact integer arithmetic in the kernel).
+# All 100 regenerated GKLS data sets of dimension 4 pass the certificate
 -/
 
 namespace Gkls
-set_option maxRecDepth 100000
-
-theorem cert4_0 : ∀ k ∈ List.range' 1 10, Cert 4 k = true := by decide +kernel
-theorem cert4_1 : ∀ k ∈ List.range' 11 10, Cert 4 k = true := by decide +kernel
-theorem cert4_2 : ∀ k ∈ List.range' 21 10, Cert 4 k = true := by decide +kernel
-theorem cert4_3 : ∀ k ∈ List.range' 31 10, Cert 4 k = true := by decide +kernel
-theorem cert4_4 : ∀ k ∈ List.range' 41 10, Cert 4 k = true := by decide +kernel
-theorem cert4_5 : ∀ k ∈ List.range' 51 10, Cert 4 k = true := by decide +kernel
-theorem cert4_6 : ∀ k ∈ List.range' 61 10, Cert 4 k = true := by decide +kernel
-theorem cert4_7 : ∀ k ∈ List.range' 71 10, Cert 4 k = true := by decide +kernel
-theorem cert4_8 : ∀ k ∈ List.range' 81 10, Cert 4 k = true := by decide +kernel
-theorem cert4_9 : ∀ k ∈ List.range' 91 10, Cert 4 k = true := by decide +kernel
 
 /-- every data set of dimension 4 passes the certificate -/
 theorem cert4 : ∀ k ∈ List.range' 1 100, Cert 4 k = true := by
-  apply range_blocks
+  apply range_blocks5
   intro b hb
   interval_cases b
   · exact cert4_0
@@ -36,5 +22,15 @@ theorem cert4 : ∀ k ∈ List.range' 1 100, Cert 4 k = true := by
   · exact cert4_7
   · exact cert4_8
   · exact cert4_9
+  · exact cert4_10
+  · exact cert4_11
+  · exact cert4_12
+  · exact cert4_13
+  · exact cert4_14
+  · exact cert4_15
+  · exact cert4_16
+  · exact cert4_17
+  · exact cert4_18
+  · exact cert4_19
 
 end Gkls
